@@ -113,7 +113,16 @@ def analyse(prop, tier="quick", root=None, quiet=False):
         cfg_infos.append({"config": cfg.name, "units": len(info["units"]), "functions": len(prog.functions),
                           "classes": len(prog.classes), "tolerated_diags": sum(len(v) for v in info["tolerated_diags"].values())})
         for rname in spec["rules"]:
-            res = RULES[rname](prog)
+            try:
+                res = RULES[rname](prog)
+            except AnalysisBroken:
+                raise
+            except Exception as ex:      # an engine error is "analysis broken" (exit 2), never a verdict and never a traceback
+                import traceback
+                from .core import RuleResult
+                tb = traceback.extract_tb(ex.__traceback__)[-1]
+                res = RuleResult(rname, "rule crashed")
+                res.broken.append("rule %s raised %s: %s (%s:%d)" % (rname, type(ex).__name__, ex, os.path.basename(tb.filename), tb.lineno))
             rule_results.setdefault(rname, []).append((cfg.name, res))
             for m in res.broken:
                 broken.append("%s [%s]: %s" % (rname, cfg.name, m))
